@@ -47,3 +47,39 @@ package zstd
 //@   requires *c != nil
 //@   ensures [C18.pool.own] typeIs(result, *writer) && asType(result, *writer) != nil && fresh(asType(result, *writer)) && asType(result, *writer).Encoder != nil && fresh(asType(result, *writer).Encoder)
 //@   modifies nothing
+
+// ---------------------------------------------------------------- Compress / Decompress (C18)
+
+// `target`: the stream a pooled (de)compressor was last pointed at. Compress hands out a writer that
+// compresses INTO the caller's writer (not into the stream of the call that used it before, and not
+// into the io.Discard it was built on); Decompress a reader that reads FROM the caller's reader -
+// whether it comes from the pool or is new.
+//@ ghostfield any.target Iface
+//@ func zstd.(*Encoder).Reset
+//@   assumed
+//@   params w, dst
+//@   ensures w.target == dst && w.busy
+//@   modifies w.target, w.busy
+//@ func zstd.NewReader
+//@   assumed
+//@   params r, opts
+//@   results z, err
+//@   ensures (err == nil || len(opts) == 0) ==> z != nil && fresh(z) && z.target == r && z.busy      // NewReader fails only on an invalid option
+//@   modifies nothing
+//@ func zstd.(*Decoder).Reset
+//@   assumed
+//@   params z, r
+//@   ensures z.target == r && z.busy
+//@   modifies z.target, z.busy
+//@ func (*compressor).Compress
+//@   maypanic
+//@   results wc, err
+//@   requires c != nil
+//@   ensures [C18.compress.target] err == nil && typeIs(wc, *writer) && asType(wc, *writer) != nil && asType(wc, *writer).Encoder.target == w && asType(wc, *writer).Encoder.busy
+//@   modifies family(G_any_target), family(G_any_busy)
+//@ func (*compressor).Decompress
+//@   maypanic
+//@   results rd, err
+//@   requires c != nil
+//@   ensures [C18.decompress.source] err == nil ==> typeIs(rd, *reader) && asType(rd, *reader) != nil && asType(rd, *reader).Decoder.target == r && asType(rd, *reader).Decoder.busy
+//@   modifies family(G_any_target), family(G_any_busy)
